@@ -40,7 +40,7 @@ def build(engine):
     t0 = time.time()
     targets = ["build/" + engine]
     if engine in ("sim_io", "sim_restart"):
-        targets += ["build/real-gama-local"]
+        targets += ["build/real-gama-local", "build/sim_io"]      # tools/fidelity.py drives the emulated side through sim_io
     p = subprocess.run(["make", "-j16"] + targets, stdout=subprocess.PIPE, stderr=subprocess.STDOUT, text=True)
     if p.returncode != 0:
         log(p.stdout[-6000:])
